@@ -295,3 +295,181 @@ def gen_forward_impl_header(root, notes, server=True):
         if mut_ctx:
             L.append('    open spec fn ctx_%s(&self) -> Context { (**self).ctx_%s() }' % (name, name))
     return '\n'.join(L), names
+
+
+# ======================================================================================================================
+# trait AsyncFileSystem (src/api/filesystem/async_io.rs) - additive; used by unit `asyncsrv` (C20) only.
+AFILE = 'src/api/filesystem/async_io.rs'
+ATRAIT = 'pub trait AsyncFileSystem: FileSystem'
+# stream parameters: the async trait names the async flavour of the same stream object; like their sync counterparts
+# they are not part of the call's value (identity of the stream objects is not pinned, see C02 not_covered)
+ASYNC_STREAMS = {'&mut (dyn AsyncZeroCopyWriter + Send)': ('&mut dyn ZeroCopyWriter', '&mut ZW', 'ZW: AsyncZeroCopyWriter'),
+                 '&mut (dyn AsyncZeroCopyReader + Send)': ('&mut dyn ZeroCopyReader', '&mut ZR', 'ZR: AsyncZeroCopyReader')}
+
+
+def parse_methods_in(root, file, header):
+    """parse_methods for an arbitrary trait (`async fn` declarations included: the `async` qualifier precedes `fn` and is
+    not part of what is parsed; -> list of dict(name, params, ret, line, is_async))"""
+    src = X.Source(root, file)
+    sc = src.scopes(header)
+    if len(sc) != 1:
+        raise X.ExtractError('%s not found exactly once in %s' % (header, file))
+    ob, cb = sc[0]
+    out = []
+    body_msk = src.msk[ob + 1:cb]
+    for m in re.finditer(r'\bfn\s+(\w+)\b', body_msk):
+        p = ob + 1 + m.start()
+        seg = src.msk[ob + 1:p]
+        if seg.count('{') - seg.count('}') != 0:
+            continue
+        qm = re.search(r'((?:async\s+)?(?:unsafe\s+)?)$', src.src[:p])
+        ls = qm.start(1) if qm else p
+        _, attrs = X.leading_attrs(src.src, src.msk, ls)
+        if not X.attrs_enabled(attrs):
+            continue
+        po = src.msk.index('(', p)
+        pc = X.match_close(src.msk, po)
+        params_txt = src.src[po + 1:pc]
+        k, d = pc + 1, 0
+        while src.msk[k] not in '{;' or d:
+            if src.msk[k] in '([':
+                d += 1
+            elif src.msk[k] in ')]':
+                d -= 1
+            k += 1
+        rm = re.match(r'\s*->\s*(.*?)\s*$', src.src[pc + 1:k], re.S)
+        ret = X.norm_ws(rm.group(1)) if rm else None
+        pm = X.mask(params_txt)
+        parts, cur, d = [], '', 0
+        for i, ch in enumerate(params_txt):
+            mc = pm[i]
+            if mc in '([<':
+                d += 1
+            elif mc in ')]>' and not (mc == '>' and i > 0 and pm[i - 1] == '-'):
+                d -= 1
+            if mc == ',' and d == 0:
+                parts.append(cur)
+                cur = ''
+            else:
+                cur += ch
+        parts.append(cur)
+        params = []
+        for prm in parts:
+            prm = X.norm_ws(re.sub(r'#\[[^\]]*\]', '', re.sub(r'//[^\n]*', '', prm)))
+            if not prm or prm in ('&self', 'self', '&mut self'):
+                continue
+            n, t = prm.split(':', 1)
+            params.append((n.strip().lstrip('_') or 'p', X.norm_ws(t)))
+        out.append(dict(name=m.group(1), params=params, ret=ret, line=src.line_of(p), is_async='async' in (qm.group(1) if qm else '')))
+    return out
+
+
+def _tuple_parts(ty):
+    """'(A, B<C, D>, E)' -> ['A', 'B<C, D>', 'E'];  anything else -> None"""
+    ty = ty.strip()
+    if not (ty.startswith('(') and ty.endswith(')')) or ty == '()':
+        return None
+    inner, parts, cur, d = ty[1:-1], [], '', 0
+    for ch in inner:
+        if ch in '(<[':
+            d += 1
+        elif ch in ')>]':
+            d -= 1
+        if ch == ',' and d == 0:
+            parts.append(cur.strip())
+            cur = ''
+        else:
+            cur += ch
+    if cur.strip():
+        parts.append(cur.strip())
+    return parts
+
+
+def gen_async_trait(root, notes, sync_info, sync_methods):
+    """Model of `trait AsyncFileSystem: FileSystem`, generated from the real trait text on every run.
+
+    C20 says the async path invokes "the same filesystem operation with the same arguments": every method `async_<op>`
+    is therefore tied to the sync method `<op>` of the generated FileSystem model and SHARES its specification functions -
+    capability `allowed_<op>(args)` (exactly these arguments) and the result function of <op> (`res_entry()`, ...):
+
+        fn async_<op>(&self, <real parameter list>) -> (res: <real return type>)      // `async` dropped (R18)
+            requires self.touch_ok(), self.allowed_<op>(<value of every argument>),  // [touch] [cap]
+            ensures  <res embedded into the sync result type> == self.res_<..>(), ...same clauses as the sync method
+
+    "Same arguments" is checked here, mechanically, against the two trait texts:
+      * the parameter lists must agree name by name and type by type, except that a stream parameter
+        `&mut (dyn AsyncZeroCopyWriter + Send)` / `&mut (dyn AsyncZeroCopyReader + Send)` stands where the sync method has
+        `&mut dyn ZeroCopyWriter` / `&mut dyn ZeroCopyReader` (the async flavour of the same stream; never part of the
+        call's value in either model).  Any other difference - an argument one side lacks - is an ExtractError (exit 2):
+        there is no sensible meaning of "same arguments" then, and it must be looked at by a human.
+      * the return type must be the sync one, or a tuple that is a strict PREFIX of the sync tuple whose missing trailing
+        components are all `Option<_>`: the async result (a, b) then stands for the sync result (a, b, None) - the async
+        API cannot express the missing component (today: the passthrough backing id of open / create), so the only sync
+        results that have an async counterpart are those with `None` there.  Logged in `notes`.
+    An async method without a sync namesake, or a method of the trait that is not `async fn async_*`, is an ExtractError."""
+    ms = parse_methods_in(root, AFILE, ATRAIT)
+    sync_by_name = {m['name']: m for m in sync_methods}
+    L = ['// ---- model of trait AsyncFileSystem, generated from %s (%d methods); shares allowed_*/res_* with trait FileSystem' % (AFILE, len(ms)),
+         'pub trait AsyncZeroCopyWriter: ZeroCopyWriter { }', 'pub trait AsyncZeroCopyReader: ZeroCopyReader { }',
+         'pub trait AsyncFileSystem: FileSystem {']
+    ainfo = {}
+    for m in ms:
+        an = m['name']
+        if not an.startswith('async_') or not m['is_async']:
+            raise X.ExtractError('AsyncFileSystem::%s is not an `async fn async_<op>`' % an)
+        op = an[len('async_'):]
+        if op not in sync_by_name or op not in sync_info:
+            raise X.ExtractError('AsyncFileSystem::%s has no sync counterpart FileSystem::%s' % (an, op))
+        sm = sync_by_name[op]
+        if len(sm['params']) != len(m['params']):
+            raise X.ExtractError('AsyncFileSystem::%s and FileSystem::%s differ in the number of arguments (%d vs %d): "same arguments" undefined'
+                                 % (an, op, len(m['params']), len(sm['params'])))
+        eparams, sexprs, gens = [], [], []
+        for (n, t), (sn, st) in zip(m['params'], sm['params']):
+            if t in ASYNC_STREAMS:
+                want, et, g = ASYNC_STREAMS[t]
+                if st != want or n != sn:
+                    raise X.ExtractError('AsyncFileSystem::%s(%s: %s) vs FileSystem::%s(%s: %s)' % (an, n, t, op, sn, st))
+                eparams.append('%s: %s' % (n, et))
+                gens.append(g)
+                notes.append('fsmodel: %s(%s: %s) abstracted to %s (stream object; sync has %s)' % (an, n, t, et, st))
+                continue
+            if (n, t) != (sn, st):
+                raise X.ExtractError('AsyncFileSystem::%s(%s: %s) vs FileSystem::%s(%s: %s): "same arguments" undefined' % (an, n, t, op, sn, st))
+            sty, se, et, g = spec_of(n, t)
+            if sty is None or g:
+                raise X.ExtractError('AsyncFileSystem::%s(%s: %s): parameter kind not supported by the async model' % (an, n, t))
+            eparams.append('%s: %s' % (n, et))
+            sexprs.append(se)
+        ret, sret = m['ret'], sm['ret']
+        rf = sync_info[op]['resfn']
+        req = ['self.touch_ok(), // [touch]', 'self.allowed_%s(%s), // [cap]' % (op, ', '.join(sexprs))]
+        for (n, t) in m['params']:
+            if t == 'stat64':
+                req.append('self.ids_ok(%s.st_uid, %s.st_gid), // [ids]' % (n, n))
+        ens = []
+        if ret != sret:
+            ap = _tuple_parts(re.match(r'^io::Result<(.*)>$', ret or '').group(1)) if ret and ret.startswith('io::Result<') else None
+            sp = _tuple_parts(re.match(r'^io::Result<(.*)>$', sret or '').group(1)) if sret and sret.startswith('io::Result<') else None
+            if not ap or not sp or len(ap) >= len(sp) or sp[:len(ap)] != ap or not all(x.startswith('Option<') for x in sp[len(ap):]):
+                raise X.ExtractError('AsyncFileSystem::%s returns %s, FileSystem::%s returns %s: no embedding' % (an, ret, op, sret))
+            comps = ['res->Ok_0.%d' % i for i in range(len(ap))] + ['None::<%s>' % x[len('Option<'):-1] for x in sp[len(ap):]]
+            ens.append('res is Ok <==> self.%s() is Ok' % rf)
+            ens.append('res is Ok ==> self.%s()->Ok_0 == (%s)' % (rf, ', '.join(comps)))
+            ens.append('res is Err ==> self.%s()->Err_0 == res->Err_0' % rf)
+            notes.append('fsmodel: %s returns %s where %s returns %s: the async result stands for the sync result with %s = None'
+                         % (an, ret, op, sret, ', '.join(sp[len(ap):])))
+        elif ret:
+            ens.append('res == self.%s()' % rf)
+        if ret and ret.startswith('io::Result'):
+            ens.append('res is Err ==> err_ok(res->Err_0)')       # T8, as for the sync method
+        if op == 'read':
+            ens.append('zw_appended(*old(w), *final(w), res)')
+            ens.append('res is Ok ==> final(w).zw_buf() == old(w).zw_buf() + self.res_read_data() && res->Ok_0 == self.res_read_data().len()')
+        g = ('<%s>' % ', '.join(gens)) if gens else ''
+        L.append('    fn %s%s(&self%s)%s' % (an, g, ''.join(', ' + p for p in eparams), (' -> (res: %s)' % ret) if ret else ''))
+        L.append('        requires ' + '\n            '.join(req))
+        L.append('        ensures ' + ', '.join(ens) + ';' if ens else '        ;')
+        ainfo[an] = dict(op=op, ret=ret, sync_ret=sret, resfn=rf, line=m['line'])
+    L.append('}')
+    return '\n'.join(L), ainfo
